@@ -128,6 +128,9 @@ add("C17", "formula", "exploration", "runtime monitor: before/after relation aro
 add("C18", "codec", "exploration", "runtime monitor: metamorphic round-trip relation (display the content, type it back into the same cell) observed on content text, cell type, resolved style and value",
     "About 110 typed inputs of every shape plus booleans, errors and formulas printed in the cell's language are typed into plain and pre-formatted cells in 5 languages x 6 locales; the displayed content is typed back and nothing the statement lists may change.",
     "Displayed content = Model::get_localized_cell_content; values are compared to 15 significant digits. Inputs the engine refuses are not judged.")
+add("C31", "history", "exploration", "runtime monitor: structural invariant walker over every dynamic-array anchor and spill cell at every quiescent point of random histories, with shape and elements recomputed by the harness for a family of formulas",
+    "After every step of random UserModel histories the walker checks block ownership, #SPILL! exactly when the block the harness computes is occupied or off the grid, no stale or orphan spill cells, typed content never replaced by a spill, and shape/elements for SEQUENCE, range, range*k and TRANSPOSE formulas.",
+    "Expected elements are computed from the values the engine shows for the source cells (numbers and blanks). Formulas whose source holds errors, overlaps their own block, or whose elements show #CIRC! (arrays reading each other: C05) are not judged on elements.")
 
 NOT_YET = {}
 
